@@ -32,9 +32,9 @@ def act(a, **kw):
     return d
 
 
-def cfg(role, hbmin=1, hbmax=60, hbcfg=30, closems=1000, startseq=0, buf=10, savefailfrom=0, creds="", savefailonly=0):
+def cfg(role, hbmin=1, hbmax=60, hbcfg=30, closems=1000, startseq=0, buf=10, savefailfrom=0, creds="", savefailonly=0, ctrfailonly=0):
     return dict(role=role, hbMin=hbmin, hbMax=hbmax, hbCfg=hbcfg, encCfg="0", allowed=["0"],
-                closeMs=closems, startSeq=startseq, buf=buf, saveFailFrom=savefailfrom, creds=creds, saveFailOnly=savefailonly)
+                closeMs=closems, startSeq=startseq, buf=buf, saveFailFrom=savefailfrom, creds=creds, saveFailOnly=savefailonly, ctrFailOnly=ctrfailonly)
 
 
 class Peer:
@@ -246,6 +246,25 @@ def gen_config():
                 p = Peer()
                 st = logged_on_prefix(role, 30, p) + [act("advance", ms=10), act(call), act("advance", ms=closems - 1), act("advance", ms=5), act("advance", ms=500)]
                 out.append(dict(id="cfg-%s-unsaved-%s-%d" % (call, role[0], closems), cfg=cfg(role, closems=closems, savefailonly=2), steps=st))
+    # the counter store refuses one update of the incoming counter (and works again afterwards): whatever arrives just then -- the
+    # peer's Logout, its answer to our Logout / Stop, a TestRequest, a ResendRequest -- is still handled (no time passes in these
+    # scenarios: what a refused update means for the inbound timer is not the properties' business)
+    for role in ("acceptor", "initiator"):
+        for n in (0, 1, 2):
+            for tail in ("logout", "llogout", "stop", "testreq", "resend"):
+                p = Peer()
+                st = logged_on_prefix(role, 30, p)
+                for j in range(n):
+                    st.append(p(["hbt", "testreq", "app"][(n + j) % 3], id=[74]))
+                if tail in ("llogout", "stop"):
+                    st += [act(tail), p("logout"), p("hbt")]
+                elif tail == "logout":
+                    st += [p("logout"), p("hbt"), p("testreq", id=[75])]
+                elif tail == "testreq":
+                    st += [p("testreq", id=[76]), p("testreq", id=[77]), p("logout")]
+                else:
+                    st += [act("send"), p("resend", b=1, e=0), p("testreq", id=[78]), p("logout")]
+                out.append(dict(id="cfg-ctrfail-%s-%s-%d" % (tail, role[0], n), cfg=cfg(role, closems=1000, ctrfailonly=n + 2), steps=st))   # (the Logon's own update is the first)
     # an initiator whose Logon is answered with another heartbeat interval, or none: its own timers keep the interval it asked for
     for variant, kw in (("other", dict(hb=30)), ("none", dict(hb=0, omit="hb")), ("zero", dict(hb=0))):
         p = Peer()
@@ -317,7 +336,7 @@ def gen_lookalike():
     # of a framing / header field (the BeginString field as a whole, '34=', '9='): the Reject still refers to the message's own number
     # a longer tag ending in 35 / 34 with a plausible value AHEAD of the genuine MsgType / MsgSeqNum field, before and after logon
     for role in ("acceptor", "initiator"):
-        for ex in (5, 6):
+        for ex in (5, 6, 7, 8):
             p = Peer()
             st = [act("run"), p("app", extra=ex), p("unknown", extra=ex), p("hbt", extra=ex), p("testreq", id=[73], extra=ex), p("logon", hb=30, extra=ex),
                   p("app", extra=ex), p("testreq", id=[74], extra=ex), p("hbt", extra=ex), p("resend", b=1, e=0, extra=ex), p("logout", extra=ex), p("logon", hb=30, extra=ex)]
@@ -558,7 +577,7 @@ def run_driver(run, binp, scns, name, testname="TestScenarios", extra_env=None):
                     a["numTxt"] = NOT_NUMBERS[(h // 4) % len(NOT_NUMBERS)] if nn and h % 4 in (1, 2) else ""
                     # the same message written differently (an unknown field, header fields in another order): one in four valid ones
                     if "extra" not in a:
-                        a["extra"] = 1 + (h // 8) % 6 if (not nn and a.get("integ", "none") == "none" and a.get("sq", "ok") == "ok" and h % 4 == 3) else 0
+                        a["extra"] = 1 + (h // 8) % 8 if (not nn and a.get("integ", "none") == "none" and a.get("sq", "ok") == "ok" and h % 4 == 3) else 0
             f.write(json.dumps(sc) + "\n")
     shards = min(NCPU, max(1, len(scns) // 20))
     procs = []
